@@ -117,9 +117,26 @@ func addEnvIntrinsics(m map[string]intrinsic) {
 			return []Value{IfaceV{}}
 		}
 	}
+	// verifFlockHeldElsewhere(true): another process holds the lock for the rest of the path: TryLock fails with
+	// fslock.ErrLocked, LockWithTimeout with fslock.ErrTimeout (their documented results), nothing is acquired
+	m["verif:verifFlockHeldElsewhere"] = func(p *Path, fn *ssa.Function, a []Value, pos token.Pos, caller *ssa.Function) []Value {
+		held := p.branch(a[0].(BoolV).T)
+		p.userData["flockHeld"] = held
+		return nil
+	}
+	contended := func(errName string) intrinsic {
+		ok := flock("lock")
+		return func(p *Path, fn *ssa.Function, a []Value, pos token.Pos, caller *ssa.Function) []Value {
+			if held, _ := p.userData["flockHeld"].(bool); held {
+				p.trace = append(p.trace, "flock:contended")
+				return []Value{p.globalValue("github.com/dolthub/fslock", errName)}
+			}
+			return ok(p, fn, a, pos, caller)
+		}
+	}
 	m["(*github.com/dolthub/fslock.Lock).Lock"] = flock("lock")
-	m["(*github.com/dolthub/fslock.Lock).TryLock"] = flock("lock")
-	m["(*github.com/dolthub/fslock.Lock).LockWithTimeout"] = flock("lock")
+	m["(*github.com/dolthub/fslock.Lock).TryLock"] = contended("ErrLocked")
+	m["(*github.com/dolthub/fslock.Lock).LockWithTimeout"] = contended("ErrTimeout")
 	m["(*github.com/dolthub/fslock.Lock).LockWithContext"] = flock("lock")
 	m["(*github.com/dolthub/fslock.Lock).Unlock"] = flock("unlock")
 	m["(*github.com/dolthub/fslock.Lock).Close"] = flock("close")
